@@ -626,6 +626,30 @@ def r05_5(prog, out, prop="C05"):
                                             fl |= sl.of(hid, hi2.call_at(o.data).args[0]).fields
                                     if (s_ids.fields & fl) and (s_secs.fields & fl) and len(fl) >= 2:
                                         guarded = True
+            if not guarded and not derived and zips and not cycles and not invents:
+                # the comparison may follow the parse: the number of pairs the parser produced (zip stops at the shorter list) is
+                # compared with the length of *each* list before anything is applied
+                covered = set()
+                for blk in b.blocks:
+                    if blk.cleanup or not bi.cfg.can_reach(bb, blk.idx) or blk.idx == bb:
+                        continue
+                    for st in blk.stmts:
+                        if st.k == "assign" and st.rv.k == "bin" and st.rv.j["op"] in ("Ne", "Eq", "Lt", "Gt", "Le", "Ge"):
+                            sides = []
+                            for op in st.rv.ops:
+                                o = bi.trace(op)
+                                if o.kind == "call" and bi.call_at(o.data).callee is not None and bi.call_at(o.data).callee.path.endswith("::len"):
+                                    sides.append(sl.of(bid, bi.call_at(o.data).args[0]))
+                            if len(sides) == 2:
+                                res = [x for x in sides if (bid, bb) in x.sites]
+                                oth = [x for x in sides if (bid, bb) not in x.sites]
+                                if len(res) == 1 and len(oth) == 1:
+                                    if s_ids.fields & oth[0].fields and not (s_secs.fields - s_ids.fields) & oth[0].fields:
+                                        covered.add("ids")
+                                    if (s_secs.fields - s_ids.fields) & oth[0].fields:
+                                        covered.add("secs")
+                if covered == {"ids", "secs"}:
+                    guarded = True
             # a literal one-element list handed to a parser that repeats the seconds: the same value for every id
             o_secs = bi.trace(a_secs)
             fixed = None
